@@ -41,7 +41,7 @@ EXIT_NAMES = ["", "ShortHeader", "ShortVertices", "TriangleLength", "IndexOutOfR
 # ---------------------------------------------------------------------------
 def gen_cases(ctx):
     """S->C: cases enumerated by TLC."""
-    recs = ctx.export("Gen_Mesh", ctx.pick("Gen_Mesh_quick", "Gen_Mesh"), workers=8)
+    recs = retry_once(ctx, ctx.export, "Gen_Mesh", ctx.pick("Gen_Mesh_quick", "Gen_Mesh"), workers=8)
     out = []
     exits = collections.Counter()
     for r in recs:
@@ -67,7 +67,7 @@ SPECIAL_F32 = [0x00000000, 0x80000000, 0x00000001, 0x807FFFFF, 0x7F800000, 0xFF8
 
 def save_spec(ctx):
     rng = ctx.rng
-    kind, v, t = md.random_mesh(rng, bound=8, max_tris=128)
+    kind, v, t = md.random_mesh(rng, bound=16, max_tris=400)
     spec = {"t": t, "kind": kind, "via": "gzip" if rng.random() < 0.15 else "bytesio",
             "order": "F" if rng.random() < 0.25 else "C"}
     n = len(v)
@@ -122,7 +122,8 @@ def affine_spec(ctx, bound=8):
     kind, v, t = md.random_mesh(rng, bound=bound, max_tris=128)
     want = rng.choice(["pos", "pos", "neg", "neg", "neg", "zero"])
     return {"v": v, "t": t, "kind": kind, "det": want, "M": md.random_matrix(rng, want),
-            "tr": [rng.randint(-9, 9) for _ in range(3)], "ub": rng.choice([0, 0, 1, 2]),
+            "mb": rng.choice([0, 0, 0, 1, 2]),
+            "tr": [rng.randint(-20, 20) for _ in range(3)], "ub": rng.choice([0, 0, 1, 2]),
             "vdtype": rng.choice(["float32", "float32", "float64"]),
             "tdtype": rng.choice(["uint32", "uint32", "int32", "int64"]),
             "shape": rng.choice(["3x4", "4x4"]), "mdtype": rng.choice(["float64", "float64", "int"])}
@@ -158,8 +159,8 @@ def tool_spec(ctx, via="inproc"):
     xf = None
     if rng.random() < 0.7:
         want = rng.choice(["pos", "neg", "neg", "zero"]) if rng.random() < 0.9 else "zero"
-        xf = {"M": md.random_matrix(rng, want), "tr": [rng.randint(-9, 9) for _ in range(3)],
-              "n": rng.choice([12, 16]), "det": want}
+        xf = {"M": md.random_matrix(rng, want), "mb": rng.choice([0, 0, 1, 2]),
+              "tr": [rng.randint(-20, 20) for _ in range(3)], "n": rng.choice([12, 16]), "det": want}
     return {"v": v, "t": t, "kind_mesh": kind, "ub": rng.choice([0, 0, 1, 2]), "xf": xf,
             "info_mesh": info_mesh, "meshdir_arg": meshdir_arg,
             "name_arg": rand_name(rng) if rng.random() < 0.5 else "",
@@ -194,7 +195,7 @@ def links_spec(ctx, via="inproc"):
             "existing": existing, "via": via}
 
 
-TITLE_CHARS = string.ascii_letters + string.digits + " .,;:_-+*/()[]{}<>=!?#%&'|~^$@"
+TITLE_CHARS = string.ascii_letters + string.digits + " .,;:_-+*/()[]{}<>=!?#%&'|~^$@\"\\\t"
 
 
 def vtk_spec(ctx):
@@ -296,12 +297,27 @@ def sig_of(mode, spec, source, case, clause, pos):
     return sig
 
 
+def retry_once(ctx, fn, *a, **kw):
+    """A JVM that dies silently under load (no TLC 'Error:' text, no verdict) is
+    started once more; a second failure, or any failure that TLC explains, stays
+    a machinery failure.  Verdicts only ever come from completed TLC runs."""
+    try:
+        return fn(*a, **kw)
+    except tlc.MachineryError as e:
+        msg = str(e)
+        if "Error" in msg or "violated" in msg or "verdicts for" in msg:
+            raise
+        ctx.notes["tlc_silent_failures_retried"] = ctx.notes.get("tlc_silent_failures_retried", 0) + 1
+        return fn(*a, **kw)
+
+
 def run_mc(ctx):
-    ctx.mc("MC_Mesh", ctx.pick("MC_Mesh_quick", "MC_Mesh"), workers=16, coverage=not ctx.quick)
+    retry_once(ctx, ctx.mc, "MC_Mesh", ctx.pick("MC_Mesh_quick", "MC_Mesh"), workers=16,
+               coverage=not ctx.quick)
     # the model must be able to tell each known / plausible deviation from the oracle
     for cfg, inv in (("MC_Mesh_gt", "ReaderMeetsOracle"), ("MC_Mesh_structerr", "ReaderMeetsOracle"),
                      ("MC_Mesh_noflip", "WindingModel")):
-        bad = tlc.model_check("MC_Mesh", cfg, workers=8)
+        bad = retry_once(ctx, tlc.model_check, "MC_Mesh", cfg, workers=8)
         if bad["ok"] or inv not in bad["invariant_violated"]:
             raise tlc.MachineryError("deviation switch %s did not violate %s (vacuous model)" % (cfg, inv))
         ctx.notes["switch_%s_violates" % cfg] = bad["invariant_violated"]
@@ -325,21 +341,21 @@ def run(ctx):
 
     todo = gen_cases(ctx)
     n = ctx.pick
-    for _ in range(n(250, 5000)):
+    for _ in range(n(500, 6000)):
         todo.append(("save", save_spec(ctx), "random"))
-    for _ in range(n(700, 30000)):
+    for _ in range(n(1500, 40000)):
         todo.append(("read", bytes_spec(ctx), "random"))
-    for _ in range(n(350, 8000)):
+    for _ in range(n(700, 12000)):
         todo.append(("affine", affine_spec(ctx), "random"))
-    for _ in range(n(70, 900)):
+    for _ in range(n(140, 1500)):
         todo.append(("tool", tool_spec(ctx), "random"))
-    for _ in range(n(3, 24)):
+    for _ in range(n(4, 30)):
         todo.append(("tool", tool_spec(ctx, via="subproc"), "random"))
-    for _ in range(n(120, 2000)):
+    for _ in range(n(250, 3000)):
         todo.append(("vtk", vtk_spec(ctx), "random"))
-    for _ in range(n(50, 700)):
+    for _ in range(n(100, 1200)):
         todo.append(("links", links_spec(ctx), "random"))
-    for _ in range(n(2, 12)):
+    for _ in range(n(3, 16)):
         todo.append(("links", links_spec(ctx, via="subproc"), "random"))
 
     cases = []
@@ -347,9 +363,16 @@ def run(ctx):
         cases.append(drive(work, mode, spec, serial))
     ctx.cleanup()
 
-    verdicts = ctx.judge("Trace_Mesh", cases, workers=16, chunk=ctx.pick(4000, 6000))
+    verdicts = {}
+    chunk = ctx.pick(5000, 6000)
+    for base in range(0, len(cases), chunk):
+        part = cases[base:base + chunk]
+        for k, c in enumerate(part):
+            c["tid"] = base + k + 1
+        verdicts.update(retry_once(ctx, ctx.judge, "Trace_Mesh", part, workers=8))
     by_mode = collections.Counter()
     exits = collections.Counter()
+    volume_clause = collections.Counter()
     for (mode, spec, source), case in zip(todo, cases):
         ctx.count()
         by_mode[mode + "/" + source] += 1
@@ -358,6 +381,8 @@ def run(ctx):
         st, clause, pos = verdicts[case["tid"]]
         if mode == "read":
             exits["%s->%s" % (EXIT_NAMES[pos], case["res"]["st"])] += 1
+        if mode == "affine":
+            volume_clause[pos] += 1
         if st != "ok":
             if clause.startswith("machinery:"):
                 raise tlc.MachineryError("Trace_Mesh could not judge a case: %s %s" % (clause, mode))
@@ -367,6 +392,8 @@ def run(ctx):
                                                              "after", "lines") if k in case}})
     ctx.notes["cases_by_mode"] = dict(by_mode)
     ctx.notes["reader_oracle_exit_vs_real_outcome"] = dict(exits)
+    ctx.notes["affine_cases_signed_volume_clause"] = {"applied (closed, volume # 0, det # 0)": volume_clause[1],
+                                                      "not applicable": volume_clause[0]}
     shown = set()
     for (mode, spec, source), case in zip(todo, cases):
         if mode in ("affine", "tool", "links") and mode not in shown and is_nontrivial(mode, spec):
